@@ -240,19 +240,16 @@ func (t *Target) WaitUntilHealthy(timeout time.Duration) bool {
 // HealthCheckConsumer
 
 func (t *Target) HealthCheckCompleted(success bool) {
-	previousState := t.state
-	newState := t.state
+	var previousState, newState TargetState
+	becameHealthy := false
 
 	t.withInflightLock(func() {
+		previousState = t.state
+
 		switch success {
 		case true:
-			switch t.state {
-			case TargetStateAdding:
-				t.state = TargetStateHealthy
-				close(t.becameHealthy)
-			default:
-				t.state = TargetStateHealthy
-			}
+			becameHealthy = t.state == TargetStateAdding
+			t.state = TargetStateHealthy
 		case false:
 			switch t.state {
 			case TargetStateHealthy:
@@ -269,6 +266,13 @@ func (t *Target) HealthCheckCompleted(success bool) {
 		if t.stateConsumer != nil {
 			t.stateConsumer.TargetStateChanged(t)
 		}
+	}
+
+	// Only report the target as healthy once its consumer has been told, so
+	// that a deployment waiting on it does not proceed before the target is
+	// in rotation.
+	if becameHealthy {
+		close(t.becameHealthy)
 	}
 }
 
